@@ -127,11 +127,50 @@ def davidson_rule_flow(ctx, rule='rule-argument-flow'):
         ctx.check(ok, rule, 'JDSymEigsBase::compute', fn.qname, 'selection reaches the initial-space construction' if ok else 'initial space built with another rule')
 
 
+def start_vector_keeps_every_direction(ctx, rule='krylov-space-built-on-the-start-vector'):
+    """The Krylov space is K(A, v1) with v1 the first basis column.  An eigenvector that has no component in v1 is invisible to the
+    whole run (in exact arithmetic for good; in floating point until rounding reintroduces it, long after the first nev Ritz values
+    have "converged").  If v1 is the start vector itself, the default (pseudo-random, fixed-seed) vector has a component in every
+    eigenvector of every matrix except adversarially built ones.  If v1 is the IMAGE A v0 of the start vector, the component along
+    every null vector of A is removed for ANY v0: the eigenvalue 0 of a singular matrix (graph Laplacians, rank-deficient Gram
+    matrices) -- the wanted one under SmallestAlge / SmallestMagn / BothEnds -- cannot be found, and the solver reports Successful
+    with the next ones.  Structural check: on the normal path of the factorization's init(), the first basis column is derived
+    from the start vector by scaling only, not through an application of the operator."""
+    from . import paths
+    n = 0
+    seen = set()
+    for fn in ctx.F.concrete():
+        if fn.cls != 'Spectra::Arnoldi' or fn.name != 'init' or not fn.cfg or fn.mangled in seen:
+            continue
+        seen.add(fn.mangled)
+        p0 = fn.locals[fn.params[0]]['name']
+        # the local that maps the first column of V
+        firsts = [fn.locals[d['var']]['name'] for x in fn.walk() if x['k'] == 'DeclStmt' for d in x['decls']
+                  if 'init' in d and 'var' in d and 'm_fac_V' in show(sym(fn, d['init'], inline=False)) and fn.locals[d['var']]['type'].startswith('Eigen::Map')]
+        if len(firsts) != 1:
+            raise AnalysisBroken('%s: the map of the first basis column was not identified' % fn.qname)
+        V1 = firsts[0]
+        filtered = []
+        for c in fn.walk():
+            if c['k'] == 'CXXMemberCallExpr' and c.get('callee') == 'perform_op':
+                a = [sym(fn, y, inline=False) for y in fn.call_args(c)]
+                if len(a) == 2 and p0 in show(a[0]) and V1 in show(a[1]):
+                    filtered.append(c)
+        n += 1
+        ctx.check(not filtered, rule, 'Arnoldi::init', fn.qname,
+                  'the first basis column is the start vector, scaled' if not filtered else
+                  'the first basis column is `%s`, the image of the start vector under the operator: the component of ANY start vector along the null space of a singular matrix is removed, '
+                  'so its eigenvalue 0 is invisible to the Krylov space and the run reports Successful with the next eigenvalues instead' % fn.s(filtered[0])[:50])
+    if n < 1:
+        raise AnalysisBroken('Arnoldi::init not analysed')
+
+
 def run(ctx):
     for base in ('Spectra::HermEigsBase', 'Spectra::GenEigsBase'):
         eigsbase.rule_argument_flow(ctx, base)
         eigsbase.ritz_data_of_current_call(ctx, base)
     davidson_rule_flow(ctx)
+    start_vector_keeps_every_direction(ctx)
     c18.keys(ctx)
     c18.dispatch(ctx)
     wanted_first_split(ctx)
